@@ -2,6 +2,7 @@
 import json, os, subprocess
 
 from lib import common, pipeline
+from checks import c01
 
 PROP = "C08"
 SPEC = os.path.join(common.VERIF, "spec", "Core")
@@ -27,10 +28,11 @@ def run(tier, seed):
                 s["id"] = len(stimuli) + 1
                 stimuli.append(s)
     events = pipeline.drive(vdrive, "c08", stimuli, chunk=60, timeout=1800)
-    res = pipeline.accept(SPEC, "CoreTrace", "CoreTrace.cfg", events, timeout=3000)
     by_id = {s["id"]: s for s in stimuli}
     findings = [f for f in common.load_findings(PROP) if f.get("status") == "open"]
     hit = {}
+    f01 = [f for f in common.load_findings("C01") if f.get("status") == "open"]
+    res = c01.judge(events, lambda t: by_id[t // 100], f01, hit)
     traces = {e["t"] for e in events if e.get("ev") == "start"}
     for b in res["bad"]:
         s = by_id[b["t"] // 100]
@@ -42,7 +44,7 @@ def run(tier, seed):
         rep.violation({"property": PROP, "variant": VARIANTS[variant], "program": s["src"], "definitions": s["defsrc"], "rejected": b["event"], "why": b["why"]},
                       f"variant '{VARIANTS[variant]}' of program {s['src'][:200]} with {len(s['defsrc'])} definitions: rejected at {b['why']} {b['i']}: "
                       f"observed {json.dumps(b['event'].get('v'))[:160]} {b['event'].get('msg', '')[:120]}")
-    for f in findings:
+    for f in findings + f01:
         if f["feature"] in hit:
             rep.known.append(f["summary"] + f" ({len(hit[f['feature']])} traces)")
     rep.cov.update({"states": res["states"], "transitions": res["lines"], "traces_validated_against_impl": len(traces),
